@@ -8,6 +8,7 @@ const bool ordered = true;
 const char *stdout_marker = nullptr;
 const char *stdout_branch_marker = nullptr;
 const double numeric_rel_tol = 0;
+const bool exact_lattice_plans = false;
 const double conditioning_gate = 1e-2;
 
 void tool_generate(Plan &p, sim::Rng &r, const std::string &) { p.variant = (int)r.below(2); }
